@@ -358,7 +358,9 @@ class Run:
         self.viol("answer-rejected:%s" % t["state"], "completing open interrupt %s was rejected: %s" % (t["nid"], self.W.py(r.f[0])))
 
     def on_answer_bound(self):
-        self.viol("answer-all-does-not-terminate", "answering every open interrupt with complete did not finish the process within the bound")
+        # progress is C01's subject (and after back / cancel / push histories re-created acts can legitimately need more answers than the bound)
+        if "c01" in self.cfg.oracles:
+            self.viol("answer-all-does-not-terminate", "answering every open interrupt with complete did not finish the process within the bound")
 
     # ================================================================== C01 progress
     def q_c01(self, where):
@@ -481,15 +483,25 @@ class Run:
             return "act-pushed-into-finished-step"
         if d["kind"] == "Act" and p is not None and p["kind"] == "Step" and did("Push", lambda e: e.get("target") == p["nid"]) and d["prev"] != p["tid"]:
             return "step-completed-past-chained-act-after-push"
-        if did("Back"):
+        for redo_kind in ("Back", "Cancel"):
+            # back and cancel both re-run an earlier step (Context::redo_task); what was created downstream meanwhile is not taken back
+            if not did(redo_kind):
+                continue
             same = [x for x in ts if x["nid"] == d["nid"]]
             if d["kind"] == "Step" and len(same) > 1 and same[-1]["tid"] != d["tid"] and d["state"] == "Running":
-                return "stale-step-instance-after-back"
+                return "stale-step-instance-after-%s" % redo_kind.lower()
             q = d
             while q is not None:
                 sm = [x for x in ts if x["nid"] == q["nid"]]
                 if len(sm) > 1:
-                    return "duplicate-flow-after-back"
+                    return "duplicate-flow-after-%s" % redo_kind.lower()
+                q = self.parent_of(q, by_tid)
+        if did("Cancel"):
+            # cancel marks the running tasks on the path to the next steps Completed (pending ones Skipped) without closing what runs beneath them
+            q = p
+            while q is not None:
+                if q["kind"] in ("Step", "Branch") and q["state"] in ("Completed", "Skipped"):
+                    return "open-beneath-path-task-closed-by-cancel"
                 q = self.parent_of(q, by_tid)
         closed_running = [e for e in hist if e.get("target_state") == "Running" and e["action"] in ("Next", "Submit", "Remove", "Skip", "Abort")]
         if closed_running:
@@ -560,6 +572,27 @@ class Run:
                         pd, pt = self.parent_of(bd, by_tid), self.parent_of(bt, by_tid)
                         if pd is not None and pt is not None and pd["tid"] == pt["tid"]:
                             return "open-sibling-branch-after-abort"
+            # more generally: abort closes the aborted act's own siblings and marks its ancestors; whatever else runs beneath those ancestors (a pushed
+            # act, the tasks of another branch when the aborted act sits outside the branches, a catch flow) stays open.  A SIBLING of the aborted
+            # act (same parent) left open is NOT this recorded mechanism and keeps its structural role.
+            for e in hist:
+                if e["action"] != "Abort":
+                    continue
+                tgs = [x for x in ts if x["nid"] == e.get("target")] or [x for x in ts if self.node_attr(x["nid"]) is None and e.get("dyn_index") is not None]
+                for tg in tgs:
+                    tp = self.parent_of(tg, by_tid)
+                    if p is not None and tp is not None and p["tid"] == tp["tid"]:
+                        continue   # a sibling
+                    anc = set()
+                    q = tp
+                    while q is not None:
+                        anc.add(q["tid"])
+                        q = self.parent_of(q, by_tid)
+                    q = p
+                    while q is not None:
+                        if q["tid"] in anc:
+                            return "open-non-sibling-beneath-aborted-ancestor"
+                        q = self.parent_of(q, by_tid)
         return "%s=%s under %s" % (d["kind"], d["state"], ("%s=%s" % (p["kind"], p["state"])) if p is not None else "root")
 
     def trace_events(self):
